@@ -139,6 +139,9 @@ func c05Instances(name string, lvl int) []c05Inst {
 				if lvl == 0 && (u[1] != 0 || u[2] > 1) {
 					continue
 				}
+				if u[1] > 10 || u[2] > 10 {
+					continue // a big component of the upper operand only in the first position
+				}
 				add(c05Inst{construct: "A - B", rng: base + " - " + joinInts(u), lo: base, loIncl: true, hi: joinInts(u), hiIncl: true})
 			}
 		}
@@ -194,6 +197,9 @@ func c05Instances(name string, lvl int) []c05Inst {
 			for _, u := range t3 {
 				if lvl == 0 && (u[1] != 0 || u[2] > 1) {
 					continue
+				}
+				if u[1] > 10 || u[2] > 10 {
+					continue // a big component of the upper operand only in the first position
 				}
 				add(c05Inst{construct: "A - B", rng: base + " - " + joinInts(u), lo: base, loIncl: true, hi: joinInts(u), hiIncl: true})
 			}
@@ -441,8 +447,22 @@ func c05Expect(e eco.Eco, in c05Inst, pv eco.Ver) (want bool, ok bool) {
 	return inside, true
 }
 
-func c05Unit(name string, lvl int) core.Unit {
-	return core.Unit{Name: "C05/" + name, Weight: 10, Run: func(r *core.Result) {
+const c05Shards = 4
+
+func c05ShardOf(rng string) int {
+	i := 0
+	for i < len(rng) && (rng[i] < '0' || rng[i] > '9') {
+		i++
+	}
+	h := 0
+	for ; i < len(rng) && rng[i] >= '0' && rng[i] <= '9'; i++ {
+		h = (h*31 + int(rng[i]-'0') + 1) % 1000003
+	}
+	return h % c05Shards
+}
+
+func c05Unit(name string, lvl, shard int) core.Unit {
+	return core.Unit{Name: fmt.Sprintf("C05/%s/%d", name, shard), Weight: 10, Run: func(r *core.Result) {
 		e := eco.ByName(name)
 		pstrs, pcores, ppre := c05Probes(name, lvl)
 		pvs := make([]eco.Ver, len(pstrs))
@@ -452,7 +472,14 @@ func c05Unit(name string, lvl int) core.Unit {
 				pvs[i] = v
 			}
 		}
-		insts := c05Instances(name, lvl)
+		var insts []c05Inst
+		// shard by the first number written in the range, so that all arities and spellings of one
+		// base (~3.4, ~3.4.0, ^3.4.0-rc) meet in one process, parsed before any is evaluated
+		for _, in := range c05Instances(name, lvl) {
+			if c05ShardOf(in.rng) == shard {
+				insts = append(insts, in)
+			}
+		}
 		r.Add("states", int64(len(insts)))
 		// parse all ranges first, evaluate afterwards (so that ranges that share hidden state interfere)
 		rgs := make([]eco.Rng, len(insts))
@@ -531,7 +558,9 @@ func init() {
 		Units: func(tier string) []core.Unit {
 			var us []core.Unit
 			for _, n := range c05Ecos {
-				us = append(us, c05Unit(n, level(tier)))
+				for sh := 0; sh < c05Shards; sh++ {
+					us = append(us, c05Unit(n, level(tier), sh))
+				}
 			}
 			return us
 		},
